@@ -24,50 +24,51 @@ type draw struct {
 
 // Machine executes one path (one decision prefix) of one harness.
 type Machine struct {
-	w       *Worker
-	hr      *HarnessRun
-	prog    *ssa.Program
-	tt      *TermTable
-	prefix  []uint64
-	pos     int
-	trail   []uint64
-	newWork [][]uint64
-	globals map[*ssa.Global]*Node
-	inited  map[*ssa.Package]bool
-	nodeSeq int
-	errSeq  int
-	varSeq  int
-	draws   []draw
-	errType types.Type
-	steps   int64
-	curInstr string
-	stack    []*ssa.Function
-	sigLog   []sigApp
-	hashLog  []hashApp
-	frozen   int // nodes with id <= frozen existed before nd.Freeze(); writes to them are reported
-	logN     *Node
-	covers   map[string]bool
-	called   map[string]bool
-	asserts  int
-	assertsSyn int
-	obligations int
-	inconclusive int
-	events   []pathEvent
-	loopMax  int
-	observes []observed
-	lastSite string
-	expects  []string
-	inLibSig bool
+	w             *Worker
+	hr            *HarnessRun
+	prog          *ssa.Program
+	tt            *TermTable
+	prefix        []uint64
+	pos           int
+	trail         []uint64
+	newWork       [][]uint64
+	globals       map[*ssa.Global]*Node
+	inited        map[*ssa.Package]bool
+	nodeSeq       int
+	errSeq        int
+	varSeq        int
+	draws         []draw
+	errType       types.Type
+	steps         int64
+	curInstr      string
+	stack         []*ssa.Function
+	sigLog        []sigApp
+	hashLog       []hashApp
+	frozen        int // nodes with id <= frozen existed before nd.Freeze(); writes to them are reported
+	logN          *Node
+	covers        map[string]bool
+	called        map[string]bool
+	asserts       int
+	assertsSyn    int
+	obligations   int
+	inconclusive  int
+	events        []pathEvent
+	loopMax       int
+	observes      []observed
+	lastSite      string
+	expects       []string
+	inLibSig      bool
 	hashInjective bool
-	nowT     *Term
-	inInit   int
-	uniq     []uniqEntry
-	onceDone map[*Node]bool
-	syncMaps map[*Node][]syncMapEntry // sync.Map contents, keyed by the node holding the map value
-	aeadLog  []aeadEnc
-	zoneOff  map[*Node]*Term
-	locOff   map[*Node]*Term
-	context  string // nd.Context: the swept case, part of panic fingerprints
+	nowT          *Term
+	inInit        int
+	uniq          []uniqEntry
+	onceDone      map[*Node]bool
+	nowObserved   bool                     // the harness read the clock through nd.NowUnix
+	syncMaps      map[*Node][]syncMapEntry // sync.Map contents, keyed by the node holding the map value
+	aeadLog       []aeadEnc
+	zoneOff       map[*Node]*Term
+	locOff        map[*Node]*Term
+	context       string // nd.Context: the swept case, part of panic fingerprints
 }
 
 type observed struct {
@@ -77,10 +78,10 @@ type observed struct {
 
 // pathEvent is something a path reports to the run: a violated assertion, a write-set hit...
 type pathEvent struct {
-	kind   string // "assert", "write"
-	label  string
-	detail string
-	model  []drawVal
+	kind     string // "assert", "write"
+	label    string
+	detail   string
+	model    []drawVal
 	realised []drawVal // model patched with real keys/signatures (see realise.go)
 }
 
@@ -192,7 +193,6 @@ func (m *Machine) branch(c *Term) bool {
 	}
 	return v == 1
 }
-
 
 // concretize returns a concrete value for t, forking over all feasible values.
 func (m *Machine) concretize(t *Term, what string) uint64 {
